@@ -10,6 +10,9 @@ NOTE = ("Trusted base: Coq 8.16.1 kernel (vm_compute in closed-term lemmas, no n
         "canonicalisation); tools/py2v.py for generated units. The theorems are about hand-written Gallina models; the "
         "models are tied to /repo by the correspondence run of this check (and by the translator where stated). ")
 CLAIMED = {
+ 'C20': dict(cat='proof', tech='Coq iff-theorems (acceptance <-> declarative rule) over a Gallina model of the five validators, three nominators, the magnitude checker and InvalidVoteEliminator, for every object of the ballot grammar and every configuration + extraction-based correspondence over the grammar',
+             text='validate = Ok <-> declarative rule proved for Simple, Approval, Ranked and both Score validators over the full object grammar (wrong containers, nested collections, numbers, None, every candidate kind) and all bound/nominator configurations; the filter theorem for InvalidVoteEliminator; no-crash theorems for simple/approval. Model tied to vote.py/candidate.py/convert.py by a grammar-driven differential run (frozensets encoded in CPython iteration order so that even the error kind is compared). A genuine defect (score ballot naming a candidate twice accepted) was repaired by a fix: commit; the eliminator re-raising CandidateError is a known finding.',
+             ref='DESIGN.md 3 C20', note='Modelled, not verified: vote.py validators, candidate.py nominators, convert.InvalidVoteEliminator (Model/Validate.v). Crash-freedom for ranked/score validators holds only for hashable items and numeric scores (stated in the iff theorems; non-numeric scores are outside the quantifier).'),
  'C05': dict(cat='proof', tech='Coq theorem (Copeland elects the Condorcet winner, for all pairwise dictionaries) over Gallina models of all ten condorcet.EVALUATORS entries + extraction-based correspondence and brute-force references for the clauses not yet proved',
              text='Proved for every pairwise dictionary: Copeland (raw and second order) returns exactly the Condorcet winner for one seat; the win-loss score characterisation. All other evaluators (Schulze, minimax x3, ranked pairs x3, Kemeny) are modelled faithfully (0 disagreements) and their Condorcet-winner / Smith / nobody-dropped clauses are decided per explored case against brute-force references - stated as partial. Four candidate-dropping / sparse-dictionary defects found by the check were repaired with fix: commits.',
              ref='DESIGN.md 3 C05', note='Modelled, not verified: condorcet.py evaluators and pairwin_scorer.py (Model/Condorcet.v). Partial: only the Copeland clause is a theorem; Benham/TidemanAlternative not covered yet.'),
